@@ -139,13 +139,15 @@ class ClassRef:
 
 
 class FuncRef:
-    def __init__(self, fi: FuncInfo) -> None:
+    def __init__(self, fi: FuncInfo, attrs: Optional[dict[str, Any]] = None) -> None:
         self.fi = fi
+        self.attrs: dict[str, Any] = attrs if attrs is not None else {}
 
 
 class BoundMethod:
-    def __init__(self, obj: Any, fi: FuncInfo) -> None:
+    def __init__(self, obj: Any, fi: FuncInfo, attrs: Optional[dict[str, Any]] = None) -> None:
         self.obj, self.fi = obj, fi
+        self.attrs: dict[str, Any] = attrs if attrs is not None else {}
 
 
 class ModuleRef:
@@ -183,9 +185,60 @@ class Interp:
         self.max_depth = max_depth
         self.depth = 0
         self.steps = 0
-        self.native = native or {}        # qualname -> python callable overriding a callee
+        self.native = dict(native or {})  # qualname -> python callable overriding a callee
+        self._default_natives()
         self._modconst: dict[tuple[str, str], Any] = {}
         self.called: set[str] = set()
+
+    def _default_natives(self) -> None:
+        """Standard-library callables the analysed code uses, as pure functions."""
+        import itertools as _it
+        import statistics as _st
+
+        def prod(xs: Any, start: Any = 1) -> Any:
+            r = start
+            for x in self.iterate(xs):
+                r = r * x
+            return r
+
+        def reduce(f: Any, xs: Any, *init: Any) -> Any:
+            xs = list(self.iterate(xs))
+            if init:
+                acc = init[0]
+            elif xs:
+                acc = xs.pop(0)
+            else:
+                raise AbsRaise("TypeError: reduce() of empty iterable with no initial value")
+            for x in xs:
+                acc = self._apply2(f, acc, x)
+            return acc
+
+        def mean(xs: Any) -> Any:
+            xs = list(self.iterate(xs))
+            if not xs:
+                raise AbsRaise("StatisticsError: mean requires at least one data point")
+            return _st.mean(xs)
+
+        def median(xs: Any) -> Any:
+            xs = list(self.iterate(xs))
+            if not xs:
+                raise AbsRaise("StatisticsError: no median for empty data")
+            return _st.median(xs)
+        d = {
+            "math.prod": prod,
+            "itertools.combinations": lambda xs, k: list(_it.combinations(list(self.iterate(xs)), k)),
+            "itertools.product": lambda *xs: list(_it.product(*[list(self.iterate(x)) for x in xs])),
+            "itertools.chain": lambda *xs: [y for x in xs for y in self.iterate(x)],
+            "functools.reduce": reduce,
+            "statistics.mean": mean,
+            "statistics.median": median,
+            "logging.warning": lambda *a, **k: None,
+            "logging.error": lambda *a, **k: None,
+            "logging.info": lambda *a, **k: None,
+            "logging.debug": lambda *a, **k: None,
+        }
+        for k, v in d.items():
+            self.native.setdefault(k, v)
 
     # -- entry -------------------------------------------------------------------------------
     def call(self, fi: FuncInfo, args: list[Any], kwargs: Optional[dict[str, Any]] = None,
@@ -209,6 +262,14 @@ class Interp:
             return None
         finally:
             self.depth -= 1
+
+    def eval_call_class(self, ci: ClassInfo, args: Optional[list[Any]] = None) -> Any:
+        """Construct an abstract instance by evaluating the class's __init__ from source."""
+        init = self.pm.method(ci, "__init__")
+        obj = AObj(ci.name, _complete=True)
+        if init is not None:
+            self.call(init, [obj] + list(args or []))
+        return obj
 
     def _bind(self, fi: FuncInfo, args: list[Any], kwargs: dict[str, Any]) -> dict[str, Any]:
         a = fi.node.args
@@ -640,13 +701,23 @@ class Interp:
             if attr in obj._f:
                 obj._reads.add(attr)
                 return obj._f[attr]
+            if attr == "__class__" and self.pm.has_cls(obj._cls):
+                return ClassRef(self.pm.cls(obj._cls))
             if self.pm.has_cls(obj._cls):
                 ci = self.pm.cls(obj._cls)
                 m = self.pm.method(ci, attr)
                 if m is not None:
                     if "property" in m.decorators():
                         return self.call(m, [obj])
-                    return BoundMethod(obj, m)
+                    if m.is_static():
+                        return FuncRef(m)
+                    return BoundMethod(obj, m, self.decorated_attrs(m))
+                for c in self.pm.mro(ci):
+                    if attr in c.class_attrs:
+                        fake = FuncInfo(f"{c.qual}.<class>", "<class>", ast.FunctionDef(name="<class>"), c.unit)  # type: ignore
+                        return self.eval(c.class_attrs[attr], {}, fake)
+            if obj._f.get("_complete"):
+                raise AbsRaise(f"AttributeError: '{obj._cls}' object has no attribute '{attr}'", where)
             raise AnalysisError("ABSINT", f"observation {obj._cls}.{attr} is outside the abstract "
                                           f"domain", where)
         if obj is None:
@@ -666,7 +737,19 @@ class Interp:
             for q, c2 in self.pm.classes.items():
                 if c2.outer is ci and c2.name == attr:
                     return ClassRef(c2)
+            if attr == "__subclasses__":
+                return ("subclasses", ci)
+            if attr == "__name__":
+                return ci.name
             raise AnalysisError("ABSINT", f"unknown class attribute {ci.name}.{attr}", where)
+        if isinstance(obj, (BoundMethod, FuncRef)):
+            if attr == "__name__":
+                return obj.fi.name
+            if attr == "__doc__":
+                return ast.get_docstring(obj.fi.node, clean=False)
+            if attr in obj.attrs:
+                return obj.attrs[attr]
+            raise AbsRaise(f"AttributeError: function has no attribute {attr}", where)
         if isinstance(obj, EnumVal):
             if attr == "value":
                 return obj.value
@@ -727,7 +810,7 @@ class Interp:
                         return EnumVal(f.ci.name, k, val)
                 raise AbsRaise(f"ValueError: {args[0]!r} is not a valid {f.ci.name}", where)
             init = self.pm.method(f.ci, "__init__")
-            obj = AObj(f.ci.name)
+            obj = AObj(f.ci.name, _complete=True)
             if init is not None:
                 self.call(init, [obj] + args, kwargs)
             elif args or kwargs:
@@ -737,6 +820,10 @@ class Interp:
             return None
         if isinstance(f, tuple) and f and f[0] == "builtin":
             return self.builtin(f[1], args, kwargs, n, where)
+        if isinstance(f, tuple) and f and f[0] == "subclasses":
+            base = f[1]
+            return [ClassRef(c) for c in self.pm.classes.values()
+                    if c is not base and any(self.pm.resolve_base(c, b) is base for b in c.bases)]
         if isinstance(f, tuple) and f and f[0] == "pymethod":
             _, obj, attr = f
             if attr in ("append", "extend", "add", "update", "pop", "insert", "remove", "clear",
@@ -750,9 +837,19 @@ class Interp:
                     return getattr(obj, attr)(*args)
                 except TypeError as exc:
                     raise AbsRaise(f"TypeError at {src(n)}", where) from exc
+            if isinstance(obj, list) and attr == "sort":
+                key = kwargs.get("key")
+                seq = list(obj)
+                res = self._sort([(self._apply(key, x), x) for x in seq], keyed=True) if key is not None \
+                    else self._sort(seq, keyed=False)
+                if kwargs.get("reverse"):
+                    res.reverse()
+                obj[:] = res
+                return None
             if isinstance(obj, (list, set, dict, tuple)) and attr in (
                     "append", "extend", "add", "update", "pop", "insert", "keys", "values",
-                    "items", "get", "index", "count", "copy", "remove"):
+                    "items", "get", "index", "count", "copy", "remove", "sort", "reverse", "clear",
+                    "setdefault", "discard", "union", "difference", "intersection", "issubset"):
                 try:
                     return getattr(obj, attr)(*args, **kwargs)
                 except (IndexError, KeyError, ValueError) as exc:
@@ -780,7 +877,7 @@ class Interp:
             raise AnalysisError("ABSINT", f"len() of {type(v).__name__}", where)
         if name == "isinstance":
             v, t = args
-            ts = t if isinstance(t, tuple) else (t,)
+            ts = t if isinstance(t, tuple) and not (len(t) == 2 and t[0] == "builtin") else (t,)
             for tt in ts:
                 if isinstance(tt, tuple) and tt[0] == "builtin":
                     py = _BUILTIN_TYPES.get(tt[1])
@@ -847,10 +944,43 @@ class Interp:
         if name == "hasattr":
             v, a = args
             if isinstance(v, AObj):
-                return a in v._f
+                if a in v._f:
+                    return True
+                return self.pm.has_cls(v._cls) and self.pm.method(self.pm.cls(v._cls), a) is not None
+            if isinstance(v, (BoundMethod, FuncRef)):
+                return a in v.attrs or a in ("__name__", "__doc__")
             return False
+        if name == "setattr":
+            v, a, val = args
+            if isinstance(v, (BoundMethod, FuncRef)):
+                v.attrs[a] = val
+                return None
+            if isinstance(v, AObj):
+                if v._f.get("_frozen"):
+                    raise AbsMutation(f"setattr({v._cls}, {a!r})", where)
+                v._f[a] = val
+                return None
+            raise AnalysisError("ABSINT", "setattr outside fragment", where)
+        if name == "getattr":
+            v, a = args[0], args[1]
+            try:
+                return self.getattr(v, a, n, None)
+            except AbsRaise:
+                if len(args) > 2:
+                    return args[2]
+                raise
+        if name == "dir":
+            v = args[0]
+            if isinstance(v, AObj) and self.pm.has_cls(v._cls):
+                names = {k for k in v._f if not k.startswith("_") or k.startswith("__") is False}
+                names = {k for k in v._f if k not in ("_frozen", "_complete")}
+                for c in self.pm.mro(self.pm.cls(v._cls)):
+                    names.update(k for k in c.methods if not k.endswith(".setter"))
+                    names.update(c.class_attrs)
+                return sorted(names)
+            raise AnalysisError("ABSINT", "dir() outside fragment", where)
         if name == "callable":
-            return isinstance(args[0], (BoundMethod, FuncRef, Lambda))
+            return isinstance(args[0], (BoundMethod, FuncRef, Lambda, ClassRef))
         if name == "float":
             return float(args[0])
         if name == "abs":
@@ -872,6 +1002,28 @@ class Interp:
         if name in _BUILTIN_TYPES:
             raise AnalysisError("ABSINT", f"constructor {name} outside fragment", where)
         raise AnalysisError("ABSINT", f"builtin {name} outside fragment", where)
+
+    def decorated_attrs(self, m: FuncInfo) -> dict[str, Any]:
+        """Function attributes set by the decorators of `m` (each decorator is evaluated from source
+        on a function reference; `property`/`staticmethod`/`classmethod`/abstract are skipped)."""
+        cache = self.__dict__.setdefault("_deco_cache", {})
+        if m.qual in cache:
+            return cache[m.qual]
+        attrs: dict[str, Any] = {}
+        cache[m.qual] = attrs
+        for d in reversed(m.node.decorator_list):
+            nm = ast.unparse(d)
+            if nm in ("property", "staticmethod", "classmethod", "abstractmethod", "total_ordering") \
+                    or nm.endswith((".setter", ".deleter")):
+                continue
+            try:
+                dec = self.eval(d, {}, m)
+            except AnalysisError:
+                continue
+            if isinstance(dec, FuncRef):
+                ref = FuncRef(m, attrs)
+                self.call(dec.fi, [ref])
+        return attrs
 
     def hash_key(self, v: Any) -> Any:
         """Canonical key standing for hash(v): equal keys <=> equal hashes (up to collisions)."""
@@ -949,7 +1101,7 @@ class Interp:
 
 
 _MISSING = object()
-_BUILTINS = {"round", "print", "reversed", "hash", "id", "len", "any", "all", "sum", "next", "isinstance", "list", "tuple", "set", "sorted",
+_BUILTINS = {"setattr", "getattr", "dir", "round", "print", "reversed", "hash", "id", "len", "any", "all", "sum", "next", "isinstance", "list", "tuple", "set", "sorted",
              "str", "bool", "int", "min", "max", "enumerate", "zip", "range", "hasattr",
              "callable", "float", "abs", "dict", "frozenset", "cast"}
 
